@@ -422,6 +422,23 @@ pub fn run_containers() {
                 let cs: Vec<h::ContainerState> = w[1..].iter().map(|c| parse(c)).collect();
                 show(&h::container_depths(&cs))
             }
+            // use <name> <ctx id|-> <layer>/<layer>/.. <containers..>   layer := name:id,name:id | -
+            "use" => {
+                let cs: Vec<h::ContainerState> = w[4..].iter().map(|c| parse(c)).collect();
+                let layers: Vec<Vec<(String, u32)>> = w[3].split('/').map(|l| {
+                    if l == "-" { Vec::new() } else {
+                        l.split(',').map(|e| { let f: Vec<&str> = e.split(':').collect(); (format!("n{}", f[0]), f[1].parse().unwrap()) }).collect()
+                    }
+                }).collect();
+                let ctx = if w[2] == "-" { None } else { Some(w[2].parse().unwrap()) };
+                let (res, out) = h::constant_use(&cs, &layers, ctx, &format!("n{}", w[1]));
+                let res = match res {
+                    Ok(id) => format!("ok{}", id),
+                    Err(Some(e)) => format!("err{}", e.code()),
+                    Err(None) => "poisoned".to_string(),
+                };
+                format!("{} | {}", res, show(&out))
+            }
             o => panic!("unknown request {o}"),
         });
         match r {
